@@ -649,4 +649,60 @@ theorem writeUnicodeString_decUnits (us : List Nat) (pad : Nat) (h : ∀ u ∈ u
   unfold writeUnicodeString
   rw [if_pos (decUnits_pyStr us h), encUnits_decUnits us h]
 
+/-! ### `sound` law of the unicode string reader -/
+
+theorem unitsOfBytes_spec (raw : BL) (us : List Nat) (h : unitsOfBytes raw = some us) :
+    (∀ u ∈ us, u < 65536) ∧ raw.length = 2 * us.length := by
+  fun_induction unitsOfBytes raw generalizing us with
+  | case1 => simp at h; subst h; simp
+  | case2 => simp at h
+  | case3 a b r us' hr ih =>
+    simp at h; subst h
+    obtain ⟨h1, h2⟩ := ih us' hr
+    refine ⟨?_, by simp [h2]; omega⟩
+    intro u hu
+    simp only [List.mem_cons] at hu
+    rcases hu with rfl | hu
+    · have := a.toNat_lt; have := b.toNat_lt; omega
+    · exact h1 u hu
+  | case4 a b r hr ih => simp at h
+
+theorem readU32_spec (d : BL) (pos n p : Nat) (h : readU32 d pos = .ok (n, p)) : n < 4294967296 ∧ p = pos + 4 := by
+  unfold readU32 at h
+  split at h
+  · rename_i a b c e _
+    simp only [Except.ok.injEq, Prod.mk.injEq] at h
+    have := a.toNat_lt; have := b.toNat_lt; have := c.toNat_lt; have := e.toNat_lt
+    omega
+  · cases h
+
+/-- `sound` law: whatever the reader returns can be written (and the cursor moved forward). -/
+theorem readUnicodeString_sound (d : BL) (pos pad : Nat) (s : Str) (p : Nat)
+    (h : readUnicodeString d pos pad = .ok (s, p)) :
+    (∃ bs, writeUnicodeString s pad = .ok bs) ∧ pos + 4 ≤ p := by
+  unfold readUnicodeString at h
+  split at h
+  · cases h
+  · rename_i n p1 h32
+    obtain ⟨hn, hp1⟩ := readU32_spec d pos n p1 h32
+    simp only at h
+    split at h
+    · cases h
+    · rename_i p3 hpad
+      split at h
+      · cases h
+      · rename_i us hus
+        simp only [Except.ok.injEq, Prod.mk.injEq] at h
+        obtain ⟨rfl, rfl⟩ := h
+        obtain ⟨hlt, hlen⟩ := unitsOfBytes_spec _ us hus
+        have hsl := slice_length_le d p1 (2 * n)
+        unfold readPadding at hpad
+        split at hpad
+        · cases hpad
+        · rename_i hp0
+          simp only [Except.ok.injEq] at hpad
+          refine ⟨⟨unitsLayout us pad, ?_⟩, by omega⟩
+          rw [writeUnicodeString_decUnits us pad hlt]
+          exact (writeUnits_eq us pad _).mpr ⟨by omega, hp0, rfl⟩
+
 end PsdVerif.Unicode
